@@ -50,6 +50,10 @@ P = {
   "For 12 collision worlds every completion order of the gated Loader futures (and, with the queued executor, every order of polling spawned metadata tasks) and every permutation of the builder's hash-map drains is enumerated (Full; deviation-bounded for the two largest); each run's graph observation incl. error referrers, final lockfile content and multiset of lockfile writes must equal the all-ready run.",
   "Owns: loader completion order, executor task order, hash-map drain order (hook). Does not inject extra suspensions of released futures. Worlds are hand-built to collide; more than ~8 simultaneously outstanding operations are not explored.",
   "DESIGN.md §4 C04", TECH + "; exhaustive enumeration of completion orders and drain permutations under a controlled scheduler"),
+ "C05": (True,
+  "One composite world reaches a remote module statically / dynamically / as text asset / behind a redirect / as declaration / with BOM / with invalid UTF-8, a jsr: package with a sub-path, and an https URL into the registry as module and as asset. Every assignment of lockfile state x served bytes to the 11 resources (+ manifests, redirecting URL, embedded module graph, cache probe) inside the deviation bound is built with the real builder under a checksum-verifying loader; a monitor over the Loader and Locker call logs decides presentation, admission, retries, redirect rejection and recording.",
+  "The scripted loader verifies presented checksums like a real cache. prefer_cached_jsr_versions is off. One world; assignments bounded by deviations from all-honest/empty-lockfile.",
+  "DESIGN.md §4 C05", TECH + "; deviation-bounded enumeration of lockfile x tamper assignments with a call-log monitor"),
 }
 
 ALL = ["C%02d" % i for i in range(1, 21)]
